@@ -133,7 +133,7 @@ def run_case(griffe, acc, case):
                     os.makedirs(os.path.join(d, "unrelated-cwd"), exist_ok=True)
                     os.chdir(d if where == "inside" else os.path.join(d, "unrelated-cwd"))  # (not "/": every absolute path is relative to it)
                     loader = griffe.GriffeLoader(search_paths=sps, allow_inspection=(agent == "inspect"), force_inspection=(agent == "inspect"), docstring_parser=griffe.Parser(parser) if parser else None)
-                    mod = loader.load(top, try_relative_path=False)
+                    mod = loader.load(top, try_relative_path=False, find_stubs_package=container.startswith("stubs-package"))
                     if resolve:
                         loader.resolve_aliases(implicit=True, external=False)
                     try:
